@@ -78,7 +78,11 @@ func Parse(b []byte) (*File, error) {
 	if !ok || xpos <= 0 || int(xpos) >= len(b) {
 		return nil, fmt.Errorf("startxref value %v out of range", v)
 	}
-	l.skipSpace()
+	if n := eolLen(tail, l.pos); n == 0 {
+		return nil, fmt.Errorf("startxref value not followed by EOL")
+	} else {
+		l.pos += n
+	}
 	if string(tail[l.pos:]) != "%%EOF" {
 		return nil, fmt.Errorf("unexpected data between startxref value and %%%%EOF: %q", tail[l.pos:])
 	}
@@ -593,9 +597,15 @@ func (f *File) parseXRefStream(b []byte, pos int) (map[uint32]*entry, error) {
 	f.Trailer = d
 	f.XRefObj = ref
 	f.XRefEnd = obj.End
-	// the xref stream must describe itself correctly
-	if e := entries[ref.Num]; e == nil || e.typ != 1 || e.f2 != int64(pos) {
-		return nil, fmt.Errorf("the cross-reference stream's own entry does not point at it")
+	// Whether the stream lists itself as in use is not checked: the property
+	// statement does not require it (the Writer lists it as free).  If it does
+	// list itself, the entry must be right.
+	if e := entries[ref.Num]; e != nil && e.typ == 1 && e.f2 != int64(pos) {
+		return nil, fmt.Errorf("the cross-reference stream's own entry points elsewhere")
+	}
+	if e := entries[ref.Num]; e != nil && e.typ == 1 {
+		delete(entries, ref.Num) // already parsed; do not parse again with the full table
+		entries[ref.Num] = &entry{typ: 1, f2: int64(pos), f3: int64(ref.Gen)}
 	}
 	return entries, nil
 }
